@@ -3390,10 +3390,12 @@ XPath::stepPattern(
 
                 for(;;)
                 {
-                    // A document node is not the child of any node, so
-                    // it cannot match a step on the child axis.  (The step
-                    // generated for a leading '//' is not on the child axis.)
-                    score = nodeType == XalanNode::DOCUMENT_NODE &&
+                    // A root node (a document, or the root of a result tree
+                    // fragment) is not the child of any node, so it cannot
+                    // match a step on the child axis.  (The step generated
+                    // for a leading '//' is not on the child axis.)
+                    score = (nodeType == XalanNode::DOCUMENT_NODE ||
+                             nodeType == XalanNode::DOCUMENT_FRAGMENT_NODE) &&
                             stepType == XPathExpression::eMATCH_ANY_ANCESTOR ?
                                 eMatchScoreNone :
                                 theTester(*context, nodeType);
@@ -3455,10 +3457,11 @@ XPath::stepPattern(
 
             const XalanNode::NodeType   nodeType = context->getNodeType();
 
-            // Neither an attribute nor a document node is the child
-            // of any node...
+            // Neither an attribute nor a root node (a document, or the
+            // root of a result tree fragment) is the child of any node...
             if(nodeType != XalanNode::ATTRIBUTE_NODE &&
-               nodeType != XalanNode::DOCUMENT_NODE)
+               nodeType != XalanNode::DOCUMENT_NODE &&
+               nodeType != XalanNode::DOCUMENT_FRAGMENT_NODE)
             {
                 opPos += 3;
 
